@@ -29,6 +29,7 @@ from . import c13_sched as S
 from .c13_ram import FakeDatetimeModule, BASE, UNIT
 
 FUEL = 8
+DEBUG = False          # tools.sessions.debug for the session objects of the scheduled threads (coverage pass)
 
 
 def sid_of(x):
@@ -198,7 +199,7 @@ class RamNRun:
 
         def body():
             self.phase[name] = 'init'
-            s = cls(id=sid_of(x), timeout=1, clean_freq=0)          # Session.__init__ (what sessions.init does)
+            s = cls(id=sid_of(x), timeout=1, clean_freq=0, debug=DEBUG)    # Session.__init__ (what sessions.init does)
             self.sess[name] = s
             if s.id != sid_of(x):
                 return 'gone'
